@@ -748,12 +748,107 @@ def rules(rep, m):
     siftrules.check_scans(rep, r9, m)
 
 
+    # R-C02-10 -----------------------------------------------------------
+    r10 = rep.rule("R-C02-10", "hash probing stays inside the map and both probers walk the same sequence: the start index has "
+                   "at most log2(hash_size) bits (a 64-bit product shifted right by 64 - (heap_exp_cur + 1), with hash_size = "
+                   "2 * heap_size = 2^(heap_exp_cur + 1)), the step is (i + 1) & (hash_size - 1), every subscript of the map in "
+                   "the probers is that index, the finder stops on the key (returning its heap index), on a never-used slot and "
+                   "on wrap-around, the slot finder stops on a free slot (heap index 0)", floor=5)
+    hk = m.need("hash_key")
+    kx = FuncCtx(m, hk)
+    rets = [x for x in walk(hk.body) if x["kind"] == "ReturnStmt" and kids(x)]
+    okk = False
+    if len(rets) == 1:
+        e = strip(kids(rets[0])[0], casts=True)
+        if e["kind"] == "BinaryOperator" and e.get("opcode") == ">>":
+            prod, sh = strip(kids(e)[0], casts=True), kx.canon(kids(e)[1])
+            mm = re.fullmatch(r"\(64 - \((\w+)->heap_exp_cur \+ (\d+)\)\)", sh) or re.fullmatch(r"\(\(64 - (\w+)->heap_exp_cur\) - (\d+)\)", sh)
+            mulok = prod["kind"] == "BinaryOperator" and prod.get("opcode") == "*" and any(
+                (int_value(strip(z, casts=True)) or 0) % 2 == 1 for z in kids(prod)) and \
+                "uint64_t" in (prod.get("type") or "uint64_t") or "unsigned long" in (prod.get("type") or "")
+            r10.instance("hash_key: %s" % kx.canon(e))
+            if mm and mulok:
+                bits_over = int(mm.group(2))
+                okk = bits_over <= 1
+                if not okk:
+                    rep.finding(r10, hk.name, "probe:start-range", "hash_key keeps heap_exp_cur + %d bits: the start index can reach "
+                                "2^(heap_exp_cur + %d) - 1, beyond the hash map of 2^(heap_exp_cur + 1) entries" % (bits_over, bits_over),
+                                where=m.rel(hk.where))
+                    r10.fail()
+            elif not mm:
+                raise AnalysisBroken("hash_key: shift amount %s not understood" % sh)
+    if okk:
+        r10.ok()
+    elif not rets or len(rets) != 1:
+        raise AnalysisBroken("hash_key not understood")
+    for fn, stop_field in (("cmi_hash_find_index", None), ("hash_find_slot", "heap_index")):
+        f = m.need(fn)
+        cx = FuncCtx(m, f)
+        hpn = f.params[0]["name"]
+        keyp = f.params[1]["name"]
+        hv = [d for d in walk(f.body) if d["kind"] == "VarDecl" and kids(d) and strip(kids(d)[0], casts=True)["kind"] == "CallExpr"
+              and callee_ref(strip(kids(d)[0], casts=True)) == "hash_key"
+              and [render(strip(a_, casts=True)) for a_ in kids(strip(kids(d)[0], casts=True))[1:]] == [hpn, keyp]
+              and "const" not in (d.get("type") or "")]
+        if len(hv) != 1:
+            raise AnalysisBroken("%s: probe index not found" % fn)
+        hvn = hv[0]["name"]
+        steps = [cx.canon(r_) for l, r_, k_, n_ in inv.stores(f) if r_ is not None and render(strip(l, casts=True)) == hvn]
+        want_step = {"((%s + 1) & (%s->hash_size - 1))" % (hvn, hpn), "((%s->hash_size - 1) & (%s + 1))" % (hpn, hvn)}
+        r10.instance("%s: start hash_key(%s), step %s" % (fn, keyp, steps))
+        if len(steps) != 1 or steps[0] not in want_step:
+            rep.finding(r10, fn, "probe:step", "%s advances its probe index by %s, not (i + 1) & (hash_size - 1): it leaves the "
+                        "map or skips slots the other prober uses" % (fn, steps), where=m.rel(f.where))
+            r10.fail()
+        else:
+            r10.ok()
+        subs = {render(strip(kids(y)[1], casts=True)) for y in walk(f.body) if y["kind"] == "ArraySubscriptExpr"}
+        if subs != {hvn}:
+            rep.finding(r10, fn, "probe:subscript", "%s subscripts the map with %s" % (fn, sorted(subs)), where=m.rel(f.where))
+            r10.fail()
+        else:
+            r10.ok()
+        # stop conditions: (condition canon, returned canon)
+        stops = []
+        for y in walk(f.body):
+            if y["kind"] == "IfStmt":
+                rr = [x for x in walk(kids(y)[1]) if x["kind"] == "ReturnStmt" and kids(x)]
+                if rr:
+                    mp_ = lambda t_: re.sub(r"(\b\w+->)?\b\w+\[%s\]" % hvn, "MAP[i]", t_)
+                    cnd = kids(y)[0]
+                    ctext = mp_(cx.canon(cnd))
+                    c0 = strip(cnd, casts=True)
+                    if c0["kind"] == "BinaryOperator" and c0.get("opcode") == "==" and \
+                            {strip(z, casts=True)["kind"] for z in kids(c0)} == {"DeclRefExpr"}:
+                        nm_ = [strip(z, casts=True)["ref"]["name"] for z in kids(c0)]
+                        other = [n_ for n_ in nm_ if n_ != hvn]
+                        dd = [d for d in walk(f.body) if d["kind"] == "VarDecl" and other and d.get("name") == other[0] and kids(d)]
+                        if hvn in nm_ and dd and render(strip(kids(dd[0])[0], casts=True)) == hvn:
+                            ctext = "(i == START)"
+                    rtext = mp_(cx.canon(kids(rr[0])[0]))
+                    stops.append((ctext, "i" if rtext == hvn else rtext))
+        r10.instance("%s stops: %s" % (fn, stops))
+        rep.sample({"rule": "R-C02-10", "function": fn, "stops": stops, "step": steps})
+        if fn == "cmi_hash_find_index":
+            need = [("(MAP[i].key == %s)" % keyp, "MAP[i].heap_index"), ("(MAP[i].key == 0)", "0")]
+            okf = all(nd in stops for nd in need) and ("(i == START)", "0") in stops
+            # the key test comes before the empty test
+            okf = okf and stops.index(need[0]) < stops.index(need[1])
+        else:
+            okf = stops == [("(MAP[i].heap_index == 0)", "i")]
+        if not okf:
+            rep.finding(r10, fn, "probe:stops", "%s leaves its probe loop on %s" % (fn, stops), where=m.rel(f.where))
+            r10.fail()
+        else:
+            r10.ok()
+
+
 def run(tier="quick"):
     models = common.load_models(tier)
     rep = Report(PID, tier, models[0])
     rep.exhaustive = True
     rep.assumptions = ["sort keys are not NaN", "keys are unique and non-zero (asserted by the API)"]
-    rep.not_decided = ["termination of the sift loops; index arithmetic of the probe sequence",
+    rep.not_decided = ["termination of the sift loops; quality of the hash distribution",
                        "placement chosen by rehash"]
     for m in models:
         rep.configs.append(m.config)
